@@ -13,6 +13,7 @@ import CassisModel.Model.Cas
 import CassisModel.Model.Traverse
 import CassisModel.Model.Merge
 import CassisModel.Model.Xmi
+import CassisModel.Model.Json
 import CassisModel.Gen.Builtins
 import CassisModel.Spec.BuiltinChecks
 
@@ -202,6 +203,91 @@ def docAnnotation (ci : Nat) (h : Handle) : M (Except Err Nat) := do
     setCas ci c'
     pure (.ok a)
 
+
+
+/-! ## JSON CAS documents -/
+
+def jOfJV : Json.JV → Json
+  | .null => Json.null
+  | .int i => jInt i
+  | .flt t => Json.mkObj [("f", jStr t)]
+  | .bool b => Json.bool b
+  | .str s => jStr s
+  | .ints l => jList jInt l
+  | .flts l => jList (fun x => match x with
+      | .flt t => Json.mkObj [("f", jStr t)]
+      | .str s => jStr s
+      | .int i => jInt i
+      | _ => Json.null) l
+  | .bools l => jList Json.bool l
+  | .strs l => jList jOptStr l
+  | .refs l => jList jOptInt l
+
+def jElements (e : Option Json.JV) : Json :=
+  match e with
+  | none => Json.null
+  | some v =>
+    let k := match v with
+      | .ints _ => "ints" | .flts _ => "flts" | .bools _ => "bools" | .strs _ => "strs" | .refs _ => "refs" | _ => "?"
+    Json.mkObj [("k", jStr k), ("v", jOfJV v)]
+
+def jOfJDoc (d : Json.JDoc) : Json :=
+  Json.mkObj [
+    ("types", match d.types with
+      | none => Json.null
+      | some ts => jList (fun (t : Json.JType) => Json.mkObj [("name", jStr t.name), ("super", jStr t.super), ("descr", jOptStr t.descr),
+          ("feats", jList (fun (f : Json.JFeat) => Json.mkObj [("name", jStr f.name), ("range", jStr f.range), ("descr", jOptStr f.descr),
+            ("multi", match f.multi with | some b => Json.bool b | none => Json.null), ("elem", jOptStr f.elem)]) t.feats)]) ts),
+    ("fss", jList (fun (f : Json.JFs) => Json.mkObj [("id", jOptInt f.id), ("ty", jStr f.ty), ("elements", jElements f.elements),
+        ("feats", Json.arr (f.feats.map (fun p => Json.arr #[jStr p.1, jOfJV p.2])).toArray)]) d.fss),
+    ("views", jList (fun (v : Json.JView) => Json.mkObj [("name", jStr v.name), ("sofa", jOptInt v.sofa), ("members", jList jInt v.members)]) d.views)]
+
+def jvOfJson (j : Json) : P Json.JV :=
+  match j with
+  | Json.null => pure .null
+  | Json.bool b => pure (.bool b)
+  | Json.str s => pure (.str s)
+  | Json.num _ => do pure (.int (← j.getInt?))
+  | _ => match optFld j "f" with
+    | some t => do pure (.flt (← t.getStr?))
+    | none => throw "bad jv"
+
+def elementsOfJson (j : Json) : P (Option Json.JV) :=
+  match j with
+  | Json.null => pure none
+  | _ => do
+    let k ← fldStr j "k"
+    let v ← fldArr j "v"
+    match k with
+    | "ints" => do pure (some (.ints (← v.mapM (·.getInt?))))
+    | "bools" => do pure (some (.bools (← v.mapM (·.getBool?))))
+    | "strs" => do pure (some (.strs (← v.mapM (fun x => match x with | Json.null => pure none | x => do pure (some (← x.getStr?))))))
+    | "refs" => do pure (some (.refs (← v.mapM (fun x => match x with | Json.null => pure none | x => do pure (some (← x.getInt?))))))
+    | "flts" => do pure (some (.flts (← v.mapM jvOfJson)))
+    | _ => throw "bad elements"
+
+def jdocOfJson (j : Json) : P Json.JDoc := do
+  let types ← match optFld j "types" with
+    | none => pure none
+    | some tj => do
+      let ts ← (← tj.getArr?).toList.mapM (fun t => do
+        let feats ← (← fldArr t "feats").mapM (fun f => do
+          pure ({ name := ← fldStr f "name", range := ← fldStr f "range", descr := ← optStr f "descr",
+                  multi := ← optBool f "multi", elem := ← optStr f "elem" } : Json.JFeat))
+        pure ({ name := ← fldStr t "name", super := ← fldStr t "super", descr := ← optStr t "descr", feats := feats } : Json.JType))
+      pure (some ts)
+  let fss ← (← fldArr j "fss").mapM (fun f => do
+    let feats ← (← fldArr f "feats").mapM (fun a => do
+      match (← a.getArr?).toList with
+      | [k, v] => pure ((← k.getStr?), (← jvOfJson v))
+      | _ => throw "bad feat")
+    let el ← match f.getObjVal? "elements" with
+      | .ok e => elementsOfJson e
+      | .error _ => pure none
+    pure ({ id := ← optInt f "id", ty := ← fldStr f "ty", elements := el, feats := feats } : Json.JFs))
+  let views ← (← fldArr j "views").mapM (fun v => do
+    pure ({ name := ← fldStr v "name", sofa := ← optInt v "sofa", members := ← (← fldArr v "members").mapM (·.getInt?) } : Json.JView))
+  pure { types := types, fss := fss, views := views }
 
 /-! ## XMI documents and canonical CAS dumps -/
 
@@ -451,6 +537,32 @@ def runOp (j : Json) : M Json := do
     let (ci, _) ← getHandle (← liftP (fldNat j "h"))
     let fine ← liftP (boolD j "fine" false)
     dumpCas ci fine
+  | "json.save" =>
+    let (ci, _) ← getHandle (← liftP (fldNat j "h"))
+    let (_, ts) ← casTsOf ci
+    let modeS ← liftP (optStr j "mode")
+    let mode := match modeS with | some "minimal" => Json.Mode.minimal | some "none" => Json.Mode.none | _ => Json.Mode.full
+    let w ← get
+    res (Json.saveJson K ts w.cass.toList ci w.heap mode) fun (doc, st) => do
+      set { w with heap := st.heap }
+      let c ← getCas ci
+      setCas ci { c with nextXid := st.nextXid }
+      pure (jOk (jOfJDoc doc))
+  | "json.load" =>
+    let tsArg ← match optFld j "ts" with
+      | some t => do let ti ← liftP t.getNat?; getTs ti
+      | none => pure Gen.builtinTS
+    let lenient ← liftP (boolD j "lenient" false)
+    let mergeTs ← liftP (boolD j "merge" true)
+    let doc ← liftP (do jdocOfJson (← fld j "doc"))
+    let w ← get
+    let ci := w.cass.size
+    let ti := w.tss.size
+    res (Json.loadJson K tsArg ti ci lenient mergeTs w.heap doc) fun ld => do
+      let h : Handle := { view := Cas.INITIAL_VIEW, lenient := lenient }
+      set { w with heap := ld.heap, tss := w.tss.push ld.ts, cass := w.cass.push ld.cas, casTs := w.casTs.push ti,
+                   handles := w.handles.push (ci, h) }
+      pure (jOk (jNat w.handles.size))
   | "cas.new" =>
     let ti ← liftP (fldNat j "ts")
     let _ ← getTs ti
